@@ -1,12 +1,985 @@
 package chain
 
-import "verif/harness/lib"
+import (
+	"fmt"
+	"strconv"
+	"strings"
 
-// Monitors evaluate the properties themselves on the implementation's own trace.
+	"verif/harness/lib"
+)
+
+// Monitors evaluate the properties themselves on the implementation's own trace (never on the Lean
+// model): every op of every history and the canonical answer the real handlers gave for it.
+//
+// They are SOUND by construction: each clause below restates (a consequence of) one property of
+// properties.jsonl over the observable trace — callback log, typed store delta, return value —
+// and fires only when that trace itself breaks it.  State is tracked with a Shadow that is built
+// from the answers alone; clauses that speak about "the state before the op" are evaluated before
+// the answer is folded into the shadow, the others after.
+//
+// One violation is reported per (property, clause) and history; its Input is the whole history up
+// to and including the offending op, so it can be replayed with `chain -replay`.
 type Monitors struct {
 	report func(lib.Violation)
+
+	// per-history state (reset by f=="reset")
+	sh    *Shadow
+	hist  []lib.M         // deep copies of all ops of the current history
+	fired map[string]bool // "<property>/<clause>" already reported in this history
+
+	recvSeen  map[string]int    // C01: "recv1 ..." / "recv2 ..." callback string -> occurrences
+	terminal  map[string]int    // C03: "1 port chan seq" / "2 src seq idx" -> ack+timeout callbacks
+	lastRecv  map[string]uint64 // C02: "port/chan" -> sequence of the last recv1 callback
+	lastAck   map[string]uint64 // C02: "port/chan" -> sequence of the last ack1 callback
+	timedOut  map[string]bool   // C14: "port/chan" ordered ends that saw a successful timeout
+	lastSend  map[string]uint64 // C08: id -> last returned send sequence
+	clientIDs map[string]bool   // C15: identifiers handed out in this history
+	chanIDs   map[string]bool
+	connIDs   map[string]bool
 }
 
-func NewMonitors(report func(lib.Violation)) *Monitors { return &Monitors{report: report} }
+// SentinelV2 is hex(sha256("UNIVERSAL_ERROR_ACKNOWLEDGEMENT")), the v2 universal error acknowledgement.
+const SentinelV2 = "4774d4a575993f963b1c06573736617a457abef8589178db8d10c94b4ab511ab"
 
-func (m *Monitors) Observe(op lib.M, out any) {}
+func NewMonitors(report func(lib.Violation)) *Monitors {
+	m := &Monitors{report: report}
+	m.resetHistory()
+	return m
+}
+
+func (m *Monitors) resetHistory() {
+	m.sh = NewShadow()
+	m.hist = nil
+	m.fired = map[string]bool{}
+	m.recvSeen = map[string]int{}
+	m.terminal = map[string]int{}
+	m.lastRecv = map[string]uint64{}
+	m.lastAck = map[string]uint64{}
+	m.timedOut = map[string]bool{}
+	m.lastSend = map[string]uint64{}
+	m.clientIDs = map[string]bool{}
+	m.chanIDs = map[string]bool{}
+	m.connIDs = map[string]bool{}
+}
+
+// obs is one observed (op, answer) pair, pre-digested.
+type obs struct {
+	f      string
+	op     lib.M
+	out    any
+	cls    string // "ok" | "noop"
+	d      []DeltaEntry
+	cb     []string
+	ret    string
+	signer string // symbolic signer ("alice" when the op has none)
+	known  bool   // signer is one of the five symbolic names (only then signer comparisons are meaningful)
+}
+
+// Observe is called for EVERY op of every history, in order.
+func (m *Monitors) Observe(op lib.M, out any) {
+	f := optStr(op, "f", "")
+	if f == "reset" || m.sh == nil {
+		m.resetHistory()
+	}
+	m.hist = append(m.hist, cloneVal(op).(lib.M))
+	if f == "reset" {
+		return
+	}
+	cls := Class(out)
+	if cls != "ok" && cls != "noop" {
+		// failure / panic: state unchanged and no callback committed; every clause below is about
+		// what a SUCCESSFUL answer may do, so there is nothing to check.
+		return
+	}
+	o := &obs{f: f, op: op, out: out, cls: cls, d: Delta(out), cb: Callbacks(out), ret: Ret(out)}
+	o.signer = optStr(op, "signer", "alice")
+	switch o.signer {
+	case "auth", "alice", "bob", "carol", "dave":
+		o.known = true
+	}
+
+	// ---- clauses evaluated against the shadow BEFORE the answer is applied ----
+	m.c01(o)
+	m.c03Counts(o)
+	m.c14Pre(o)
+	m.c11Pre(o)
+	m.c08(o)
+	m.c09(o)
+	m.c10(o)
+	m.c12(o)
+	m.c13(o)
+	m.c15(o)
+	m.c46(o)
+
+	m.sh.Apply(out)
+
+	// ---- clauses evaluated against the shadow AFTER the answer is applied ----
+	m.c02(o)
+	m.c03Post(o)
+	m.c11Post(o)
+	m.c14Post(o)
+}
+
+// viol reports at most one violation per (property, clause) and history.
+func (m *Monitors) viol(o *obs, prop, clause, what string, observed lib.M) {
+	key := prop + "/" + clause
+	if m.fired[key] {
+		return
+	}
+	m.fired[key] = true
+	if observed == nil {
+		observed = lib.M{}
+	}
+	observed["key"] = key
+	observed["op_index"] = len(m.hist) - 1
+	observed["f"] = o.f
+	observed["answer"] = o.out
+	m.report(lib.Violation{
+		Property: prop,
+		What:     what,
+		Input:    lib.M{"history": append([]lib.M(nil), m.hist...)},
+		Observed: observed,
+	})
+}
+
+// ------------------------------------------------------------------------------------------------
+// C01  exactly-once delivery
+// ------------------------------------------------------------------------------------------------
+
+func (m *Monitors) c01(o *obs) {
+	// (a) every distinct receive-callback string (it names destination, sequence and, for v2, the
+	// payload index) occurs at most once in a history.
+	for _, c := range o.cb {
+		if strings.HasPrefix(c, "recv1 ") || strings.HasPrefix(c, "recv2 ") {
+			m.recvSeen[c]++
+			if n := m.recvSeen[c]; n > 1 {
+				m.viol(o, "C01", "recv-twice", "the destination application's receive callback ran more than once for the same packet",
+					lib.M{"callback": c, "count": n})
+			}
+		}
+	}
+	// (b) a redundant relay changes nothing and does not reach the application.
+	if o.cls == "noop" && (len(o.d) > 0 || len(o.cb) > 0) {
+		m.viol(o, "C01", "noop-effect", "a NOOP answer changed state or reached an application",
+			lib.M{"delta_entries": len(o.d), "callbacks": o.cb})
+	}
+}
+
+// ------------------------------------------------------------------------------------------------
+// C02  ordered channels: callbacks strictly in sequence (evaluated after Apply; ordering of a
+// channel never changes, so pre- or post-state makes no difference)
+// ------------------------------------------------------------------------------------------------
+
+func (m *Monitors) c02(o *obs) {
+	for _, c := range o.cb {
+		fs := strings.Fields(c)
+		if len(fs) < 4 {
+			continue
+		}
+		var last map[string]uint64
+		switch fs[0] {
+		case "recv1":
+			last = m.lastRecv
+		case "ack1":
+			last = m.lastAck
+		default:
+			continue
+		}
+		ci, ok := m.sh.Chan(fs[1], fs[2])
+		if !ok || ci.Order != "ORDERED" {
+			continue
+		}
+		seq, err := strconv.ParseUint(fs[3], 10, 64)
+		if err != nil {
+			continue
+		}
+		key := fs[1] + "/" + fs[2]
+		if want := last[key] + 1; seq != want {
+			m.viol(o, "C02", fs[0]+"-order", "an ORDERED channel's "+fs[0]+" callbacks are not the sequences 1,2,3,... in order",
+				lib.M{"channel": key, "callback": c, "expected_seq": lib.U(want)})
+		}
+		last[key] = seq
+	}
+}
+
+// ------------------------------------------------------------------------------------------------
+// C03  at most one terminal outcome per sent packet
+// ------------------------------------------------------------------------------------------------
+
+func (m *Monitors) c03Counts(o *obs) {
+	for _, c := range o.cb {
+		fs := strings.Fields(c)
+		if len(fs) < 4 {
+			continue
+		}
+		var key string
+		switch fs[0] {
+		case "ack1", "timeout1": // <port> <chan> <seq> [ackhex]
+			key = "1 " + fs[1] + " " + fs[2] + " " + fs[3]
+		case "ack2", "timeout2": // <src> <seq> <idx> [ackhex]
+			key = "2 " + fs[1] + " " + fs[2] + " " + fs[3]
+		default:
+			continue
+		}
+		m.terminal[key]++
+		if n := m.terminal[key]; n > 1 {
+			m.viol(o, "C03", "terminal-twice", "the sending application observed more than one acknowledgement/timeout for one packet",
+				lib.M{"packet": key, "callback": c, "count": n})
+		}
+	}
+}
+
+func (m *Monitors) c03Post(o *obs) {
+	if o.cls != "ok" {
+		return
+	}
+	pkt := optObj(o.op, "pkt")
+	var kind, key string
+	switch o.f {
+	case "ackV1", "timeoutV1", "timeoutOnCloseV1":
+		kind, key = "c1", optStr(pkt, "sp", "")+"/"+optStr(pkt, "sc", "")+"/"+numStr(pkt, "seq")
+	case "ackV2", "timeoutV2":
+		kind, key = "c2", optStr(pkt, "src", "")+"/"+numStr(pkt, "seq")
+	default:
+		return
+	}
+	if v, ok := m.sh.Get(kind, key); ok {
+		m.viol(o, "C03", "commitment-left", "the packet commitment still exists after its acknowledgement/timeout was processed",
+			lib.M{"kind": kind, "packet": key, "commitment": v})
+	}
+}
+
+// ------------------------------------------------------------------------------------------------
+// C08  sends allocate consecutive sequences and write exactly one commitment
+// ------------------------------------------------------------------------------------------------
+
+func (m *Monitors) c08(o *obs) {
+	if o.cls != "ok" || (o.f != "sendV1" && o.f != "sendV2") {
+		return
+	}
+	var id, prefix string
+	if o.f == "sendV1" {
+		id = optStr(o.op, "chan", "")
+		prefix = optStr(o.op, "port", "") + "/" + id + "/"
+	} else {
+		id = optStr(o.op, "src", "")
+		prefix = id + "/"
+	}
+	seq, err := strconv.ParseUint(o.ret, 10, 64)
+	// (a) returned sequences per id are 1,2,3,... (v1 and v2 share the counter of an id)
+	if want := m.lastSend[id] + 1; err != nil || seq != want {
+		m.viol(o, "C08", "sequence", "a successful send did not return the next consecutive sequence of its channel/client id",
+			lib.M{"id": id, "ret": o.ret, "expected": lib.U(want)})
+	}
+	if err != nil {
+		return
+	}
+	m.lastSend[id] = seq
+	// (b) exactly one commitment and one counter bump, nothing else of the packet-flow kinds
+	ncommit, nsend := 0, 0
+	for _, e := range o.d {
+		switch e.Kind {
+		case "c1", "c2":
+			ncommit++
+			if e.Val == nil || !strings.HasPrefix(e.Key, prefix) || !strings.HasSuffix(e.Key, "/"+o.ret) {
+				m.viol(o, "C08", "commitment", "a successful send touched a commitment other than the one of the returned sequence",
+					lib.M{"id": id, "ret": o.ret, "entry": entryDesc(e)})
+			}
+		case "nsend":
+			nsend++
+			if e.Key != id || e.Val == nil || seq+1 == 0 || *e.Val != lib.U(seq+1) {
+				m.viol(o, "C08", "counter", "a successful send did not set nextSequenceSend of its id to the returned sequence + 1",
+					lib.M{"id": id, "ret": o.ret, "entry": entryDesc(e)})
+			}
+		case "r1", "r2", "a1", "a2", "nrecv", "nack", "chan":
+			m.viol(o, "C08", "extra-write", "a successful send wrote packet-flow state other than its commitment and send counter",
+				lib.M{"id": id, "entry": entryDesc(e)})
+		}
+	}
+	if ncommit != 1 {
+		m.viol(o, "C08", "commitment-count", "a successful send did not write exactly one commitment",
+			lib.M{"id": id, "ret": o.ret, "commitment_entries": ncommit})
+	}
+	if nsend != 1 {
+		m.viol(o, "C08", "counter-count", "a successful send did not update exactly one nextSequenceSend counter",
+			lib.M{"id": id, "ret": o.ret, "nsend_entries": nsend})
+	}
+}
+
+// ------------------------------------------------------------------------------------------------
+// C09  v1 receive: application state committed iff the acknowledgement is not an error
+// ------------------------------------------------------------------------------------------------
+
+func (m *Monitors) c09(o *obs) {
+	if o.cls != "ok" || o.f != "recvV1" {
+		return
+	}
+	app := optObj(o.op, "app")
+	res := optStr(app, "res", "ok")
+	w := optNum(app, "w", 0)
+	tag := optStr(o.op, "tag", "t")
+	pkt := optObj(o.op, "pkt")
+	end := optStr(pkt, "dp", "") + "/" + optStr(pkt, "dc", "")
+	key := end + "/" + numStr(pkt, "seq")
+	switch res {
+	case "err":
+		for _, e := range o.d {
+			if e.Kind == "app" {
+				m.viol(o, "C09", "err-app-state", "application state written during a receive that returned an error acknowledgement persisted",
+					lib.M{"packet": key, "entry": entryDesc(e)})
+			}
+		}
+		if e := findSet(o.d, "a1", key); e == nil {
+			m.viol(o, "C09", "err-no-ack", "a receive with an error acknowledgement succeeded without writing the acknowledgement",
+				lib.M{"packet": key})
+		}
+		if findSet(o.d, "r1", key) == nil && findSet(o.d, "nrecv", end) == nil {
+			m.viol(o, "C09", "err-no-receipt", "a receive with an error acknowledgement succeeded without writing a receipt / bumping nextSequenceRecv",
+				lib.M{"packet": key})
+		}
+	case "ok", "async":
+		m.appPersisted(o, "C09", "k", w, tag, func(e DeltaEntry) bool { return true })
+	}
+}
+
+// appPersisted checks that the scripted application writes <stem>0..<stem>(w-1) := tag are all in
+// the committed delta (a key may be absent only if the pre-state already held exactly that value)
+// and that every "app" entry selected by `mine` is one of those writes.
+func (m *Monitors) appPersisted(o *obs, prop, stem string, w uint64, tag string, mine func(DeltaEntry) bool) {
+	inDelta := map[string]DeltaEntry{}
+	for _, e := range o.d {
+		if e.Kind == "app" && mine(e) {
+			inDelta[e.Key] = e
+		}
+	}
+	for i := uint64(0); i < w; i++ {
+		k := stem + lib.U(i)
+		if e, ok := inDelta[k]; ok {
+			delete(inDelta, k)
+			if e.Val == nil || *e.Val != tag {
+				m.viol(o, prop, "app-lost", "an application write of a successful/asynchronous receive was not committed as written",
+					lib.M{"key": k, "expected": tag, "entry": entryDesc(e)})
+			}
+			continue
+		}
+		if old, ok := m.sh.Get("app", k); !ok || old != tag {
+			m.viol(o, prop, "app-lost", "an application write of a successful/asynchronous receive was not committed",
+				lib.M{"key": k, "expected": tag})
+		}
+	}
+	for _, k := range lib.SortedKeys(inDelta) {
+		m.viol(o, prop, "app-extra", "application state changed that the receive callback(s) of this op did not write",
+			lib.M{"entry": entryDesc(inDelta[k])})
+	}
+}
+
+// ------------------------------------------------------------------------------------------------
+// C10  v2 multi-payload receives are all-or-nothing
+// ------------------------------------------------------------------------------------------------
+
+func (m *Monitors) c10(o *obs) {
+	if o.cls != "ok" {
+		return
+	}
+	// a successful acknowledgement never contains the sentinel next to other elements (any op that
+	// writes a v2 acknowledgement: recvV2 and the asynchronous writeAckV2)
+	for _, e := range o.d {
+		if e.Kind != "a2" || e.Val == nil {
+			continue
+		}
+		if parts := strings.Split(*e.Val, ","); len(parts) > 1 {
+			for _, p := range parts {
+				if p == SentinelV2 {
+					m.viol(o, "C10", "sentinel-in-list", "a written v2 acknowledgement holds the error sentinel inside a multi-element list",
+						lib.M{"entry": entryDesc(e)})
+				}
+			}
+		}
+	}
+	if o.f != "recvV2" {
+		return
+	}
+	pkt := optObj(o.op, "pkt")
+	dst, seq := optStr(pkt, "dst", ""), numStr(pkt, "seq")
+	key := dst + "/" + seq
+	n := len(glist(pkt, "payloads"))
+	apps := glist(o.op, "apps")
+	script := func(i int) map[string]any { // missing entries: res "ok", w 0, ack ""
+		if i < len(apps) && apps[i] != nil {
+			return apps[i]
+		}
+		return map[string]any{}
+	}
+	scripted := true // every payload has an explicit script (then the commitment dictionary knows every prefix)
+	fail := -1
+	for i := 0; i < n; i++ {
+		if i >= len(apps) || apps[i] == nil {
+			scripted = false
+		}
+		if fail < 0 && optStr(script(i), "res", "ok") == "fail" {
+			fail = i
+		}
+	}
+	executed := n // payloads whose callback runs: all, or up to and including the first failing one
+	if fail >= 0 {
+		executed = fail + 1
+	}
+	async := false // an EXECUTED payload answered async (one behind the first failure never runs)
+	for i := 0; i < executed; i++ {
+		if i != fail && optStr(script(i), "res", "ok") == "async" {
+			async = true
+		}
+	}
+	if async && n > 1 {
+		m.viol(o, "C10", "async-multi", "a multi-payload v2 receive with an asynchronous application result succeeded",
+			lib.M{"packet": key, "payloads": n})
+	}
+	var wantCb []string
+	for i := 0; i < executed; i++ {
+		wantCb = append(wantCb, fmt.Sprintf("recv2 %s %s %d", dst, seq, i))
+	}
+	a2 := findSet(o.d, "a2", key)
+	switch {
+	case fail >= 0:
+		for _, e := range o.d {
+			if e.Kind == "app" {
+				m.viol(o, "C10", "fail-app-state", "application state of a v2 receive with a failing payload persisted",
+					lib.M{"packet": key, "failing_payload": fail, "entry": entryDesc(e)})
+			}
+		}
+		if a2 == nil || *a2.Val != SentinelV2 {
+			m.viol(o, "C10", "fail-ack", "a v2 receive with a failing payload did not write exactly the universal error acknowledgement",
+				lib.M{"packet": key, "failing_payload": fail, "a2": valDesc(a2)})
+		}
+		if !sameStrings(o.cb, wantCb) {
+			m.viol(o, "C10", "fail-callbacks", "a v2 receive with a failing payload did not run exactly the payloads up to the failing one",
+				lib.M{"packet": key, "failing_payload": fail, "expected_cb": wantCb})
+		}
+	case !async:
+		var acks []string
+		for i := 0; i < n; i++ {
+			acks = append(acks, optStr(script(i), "ack", ""))
+		}
+		want := strings.Join(acks, ",")
+		// a "?<hash>" value means the dictionary does not know the preimage; that proves a mismatch
+		// only when every prefix of the scripted acknowledgements was registered (all scripts present)
+		unknown := a2 != nil && strings.HasPrefix(*a2.Val, "?") && !scripted
+		if !unknown && (a2 == nil || *a2.Val != want) {
+			m.viol(o, "C10", "success-ack", "a fully successful v2 receive did not write one application acknowledgement per payload in payload order",
+				lib.M{"packet": key, "expected_a2": want, "a2": valDesc(a2)})
+		}
+		if !sameStrings(o.cb, wantCb) {
+			m.viol(o, "C10", "success-callbacks", "a fully successful v2 receive did not run every payload exactly once in order",
+				lib.M{"packet": key, "expected_cb": wantCb})
+		}
+	}
+	if fail < 0 {
+		// all-or-nothing, the "all" half: every payload's writes p<i>k<j> := tag persist
+		tag := optStr(o.op, "tag", "t")
+		for i := 0; i < n; i++ {
+			stem := "p" + strconv.Itoa(i) + "k"
+			m.appPersisted(o, "C10", stem, optNum(script(i), "w", 0), tag, func(e DeltaEntry) bool { return strings.HasPrefix(e.Key, stem) })
+		}
+	}
+}
+
+// ------------------------------------------------------------------------------------------------
+// C11  one immutable acknowledgement per received packet; async packet lifecycle
+// ------------------------------------------------------------------------------------------------
+
+func (m *Monitors) c11Pre(o *obs) {
+	for _, e := range o.d {
+		switch e.Kind {
+		case "a1", "a2":
+			// (a) write-once
+			if old, ok := m.sh.Get(e.Kind, e.Key); ok && (e.Val == nil || *e.Val != old) {
+				m.viol(o, "C11", "ack-changed", "an acknowledgement commitment that was already written changed or was deleted",
+					lib.M{"kind": e.Kind, "packet": e.Key, "old": old, "entry": entryDesc(e)})
+			}
+			// (c) writing the acknowledgement of an async packet removes the stored packet
+			if e.Kind == "a2" && e.Val != nil {
+				if _, pending := m.sh.Get("async", e.Key); pending {
+					if x := find(o.d, "async", e.Key); x == nil || x.Val != nil {
+						m.viol(o, "C11", "async-kept", "the stored async packet was not removed when its acknowledgement was written",
+							lib.M{"packet": e.Key})
+					}
+				}
+			}
+		case "async":
+			if e.Val != nil {
+				if o.f != "recvV2" {
+					m.viol(o, "C11", "async-set", "an async packet was stored by something other than a v2 receive",
+						lib.M{"entry": entryDesc(e)})
+				}
+			} else if findSet(o.d, "a2", e.Key) == nil {
+				m.viol(o, "C11", "async-dropped", "a stored async packet was removed without its acknowledgement being written",
+					lib.M{"packet": e.Key})
+			}
+		}
+	}
+}
+
+func (m *Monitors) c11Post(o *obs) {
+	// (b) v2 writes an acknowledgement only for a packet that has a receipt
+	for _, e := range o.d {
+		if e.Kind == "a2" && e.Val != nil {
+			if _, ok := m.sh.Get("r2", e.Key); !ok {
+				m.viol(o, "C11", "ack-without-receipt", "a v2 acknowledgement was written for a packet without receipt",
+					lib.M{"packet": e.Key})
+			}
+		}
+	}
+}
+
+// ------------------------------------------------------------------------------------------------
+// C12  channel state machine
+// ------------------------------------------------------------------------------------------------
+
+func (m *Monitors) c12(o *obs) {
+	for _, e := range o.d {
+		if e.Kind != "chan" {
+			continue
+		}
+		old, had := m.sh.Get("chan", e.Key)
+		if e.Val == nil {
+			m.viol(o, "C12", "deleted", "a channel end was deleted", lib.M{"channel": e.Key, "old": old})
+			continue
+		}
+		nw := ParseChan(e.Key, *e.Val)
+		ob := lib.M{"channel": e.Key, "old": old, "new": *e.Val}
+		if !had {
+			if nw.State != "INIT" && nw.State != "TRYOPEN" {
+				m.viol(o, "C12", "created", "a channel end was created in a state other than INIT/TRYOPEN", ob)
+			}
+			continue
+		}
+		od := ParseChan(e.Key, old)
+		if od.State == "CLOSED" && old != *e.Val {
+			m.viol(o, "C12", "closed-changed", "a CLOSED channel end changed (CLOSED is terminal)", ob)
+			continue
+		}
+		initToOpen := od.State == "INIT" && nw.State == "OPEN"
+		switch {
+		case od.State == nw.State:
+		case initToOpen:
+		case od.State == "TRYOPEN" && nw.State == "OPEN":
+		case nw.State == "CLOSED": // od.State != CLOSED here
+		default:
+			m.viol(o, "C12", "transition", "a channel end changed state outside INIT->OPEN, TRYOPEN->OPEN, X->CLOSED", ob)
+		}
+		if od.Order != nw.Order || od.CpPort != nw.CpPort || od.Hops != nw.Hops {
+			m.viol(o, "C12", "immutable", "ordering, counterparty port or connection hops of a channel end changed", ob)
+		}
+		if !initToOpen && (od.Version != nw.Version || od.CpChan != nw.CpChan) {
+			m.viol(o, "C12", "version-cpchan", "version or counterparty channel id of a channel end changed outside INIT->OPEN", ob)
+		}
+	}
+}
+
+// ------------------------------------------------------------------------------------------------
+// C13  connection state machine, channel-open version requirement, localhost refusal
+// ------------------------------------------------------------------------------------------------
+
+func (m *Monitors) c13(o *obs) {
+	for _, e := range o.d {
+		if e.Kind != "conn" {
+			continue
+		}
+		old, had := m.sh.Get("conn", e.Key)
+		if e.Val == nil {
+			m.viol(o, "C13", "deleted", "a connection end was deleted", lib.M{"connection": e.Key, "old": old})
+			continue
+		}
+		nw := ParseConn(e.Key, *e.Val)
+		ob := lib.M{"connection": e.Key, "old": old, "new": *e.Val}
+		if !had {
+			if nw.State != "INIT" && nw.State != "TRYOPEN" {
+				m.viol(o, "C13", "created", "a connection end was created in a state other than INIT/TRYOPEN", ob)
+			}
+			continue
+		}
+		od := ParseConn(e.Key, old)
+		if od.State == "OPEN" && old != *e.Val {
+			m.viol(o, "C13", "open-changed", "an OPEN connection end changed (it never leaves OPEN)", ob)
+			continue
+		}
+		switch {
+		case od.State == nw.State:
+		case od.State == "INIT" && nw.State == "OPEN":
+		case od.State == "TRYOPEN" && nw.State == "OPEN":
+		default:
+			m.viol(o, "C13", "transition", "a connection end changed state outside INIT->OPEN, TRYOPEN->OPEN", ob)
+		}
+		if od.Client != nw.Client || od.CpClient != nw.CpClient || od.Prefix != nw.Prefix || od.Delay != nw.Delay {
+			m.viol(o, "C13", "immutable", "client, counterparty client, prefix or delay period of a connection end changed", ob)
+		}
+	}
+	if o.cls != "ok" {
+		return
+	}
+	switch o.f {
+	case "chanOpenInit", "chanOpenTry":
+		// a channel opens only on a connection with exactly one negotiated version that supports the ordering
+		hops := gstrs(o.op, "hops")
+		want := "ORDER_" + optStr(o.op, "order", "")
+		ob := lib.M{"hops": hops, "feature": want}
+		if len(hops) == 0 {
+			m.viol(o, "C13", "chan-conn", "a channel open succeeded without a connection hop", ob)
+			return
+		}
+		v, ok := m.sh.Get("conn", hops[0])
+		if !ok {
+			m.viol(o, "C13", "chan-conn", "a channel open succeeded on a connection that does not exist", ob)
+			return
+		}
+		vers := ParseConn(hops[0], v).Versions
+		ob["versions"] = vers
+		supported := false
+		if vers != "" && !strings.Contains(vers, ";") {
+			if i := strings.Index(vers, ":"); i >= 0 {
+				for _, ft := range strings.Split(vers[i+1:], ",") {
+					if ft == want {
+						supported = true
+					}
+				}
+			}
+		}
+		if !supported {
+			m.viol(o, "C13", "chan-version", "a channel open succeeded on a connection without exactly one version supporting the requested ordering", ob)
+		}
+	case "connOpenInit", "connOpenTry":
+		if optStr(o.op, "client", "") == "09-localhost" {
+			m.viol(o, "C13", "localhost", "a connection handshake over the localhost client succeeded", nil)
+		}
+	}
+}
+
+// ------------------------------------------------------------------------------------------------
+// C14  ordered timeouts close the channel; nothing flows on a CLOSED end
+// ------------------------------------------------------------------------------------------------
+
+// packetEnd is the local channel end a v1 packet op acts on.
+func packetEnd(o *obs) (string, bool) {
+	pkt := optObj(o.op, "pkt")
+	switch o.f {
+	case "sendV1":
+		return optStr(o.op, "port", "") + "/" + optStr(o.op, "chan", ""), true
+	case "recvV1", "writeAckV1":
+		return optStr(pkt, "dp", "") + "/" + optStr(pkt, "dc", ""), true
+	case "ackV1":
+		return optStr(pkt, "sp", "") + "/" + optStr(pkt, "sc", ""), true
+	}
+	return "", false
+}
+
+func (m *Monitors) c14Pre(o *obs) {
+	if o.cls != "ok" {
+		return
+	}
+	end, ok := packetEnd(o)
+	if !ok {
+		return
+	}
+	if m.timedOut[end] {
+		m.viol(o, "C14", "flow-after-timeout", "a packet was sent/received/acknowledged on an ORDERED channel end after a packet on it had timed out",
+			lib.M{"channel": end})
+	}
+	if v, ok := m.sh.Get("chan", end); ok && ParseChan(end, v).State == "CLOSED" {
+		m.viol(o, "C14", "flow-on-closed", "a packet was sent/received/acknowledged on a CLOSED channel end",
+			lib.M{"channel": end, "state": v})
+	}
+}
+
+func (m *Monitors) c14Post(o *obs) {
+	if o.cls != "ok" || (o.f != "timeoutV1" && o.f != "timeoutOnCloseV1") {
+		return
+	}
+	pkt := optObj(o.op, "pkt")
+	end := optStr(pkt, "sp", "") + "/" + optStr(pkt, "sc", "")
+	v, ok := m.sh.Get("chan", end)
+	if !ok {
+		return
+	}
+	ci := ParseChan(end, v)
+	if ci.Order != "ORDERED" {
+		return
+	}
+	m.timedOut[end] = true
+	if ci.State != "CLOSED" {
+		m.viol(o, "C14", "not-closed", "an ORDERED channel end is not CLOSED after one of its packets was timed out",
+			lib.M{"channel": end, "state": v})
+	}
+}
+
+// ------------------------------------------------------------------------------------------------
+// C15  generated identifiers are never reused; identifier counters only grow
+// ------------------------------------------------------------------------------------------------
+
+func (m *Monitors) c15(o *obs) {
+	fresh := func(set map[string]bool, class, id string) {
+		if set[id] {
+			m.viol(o, "C15", "reused-"+class, "a generated "+class+" identifier was handed out twice in one history", lib.M{"id": id})
+		}
+		set[id] = true
+	}
+	if o.cls == "ok" {
+		switch o.f {
+		case "createClient":
+			fresh(m.clientIDs, "client", o.ret)
+		case "chanOpenInit", "chanOpenTry":
+			id, _, _ := strings.Cut(o.ret, "|")
+			fresh(m.chanIDs, "channel", id)
+		}
+	}
+	for _, e := range o.d {
+		switch e.Kind {
+		case "conn":
+			if _, had := m.sh.Get("conn", e.Key); !had && e.Val != nil {
+				fresh(m.connIDs, "connection", e.Key)
+			}
+		case "nchan", "nconn", "nclient":
+			old, had := m.sh.Get(e.Kind, e.Key)
+			if !had {
+				continue // first sight of the counter: nothing to compare with
+			}
+			ob := lib.M{"counter": e.Kind, "old": old, "entry": entryDesc(e)}
+			if e.Val == nil {
+				m.viol(o, "C15", "counter", "an identifier counter was deleted", ob)
+				continue
+			}
+			a, err1 := strconv.ParseUint(old, 10, 64)
+			b, err2 := strconv.ParseUint(*e.Val, 10, 64)
+			if err1 == nil && err2 == nil && b <= a {
+				m.viol(o, "C15", "counter", "an identifier counter did not strictly increase", ob)
+			}
+		}
+	}
+}
+
+// ------------------------------------------------------------------------------------------------
+// C46  privileged and client-scoped operations require the right signer
+// ------------------------------------------------------------------------------------------------
+
+func (m *Monitors) c46(o *obs) {
+	ok := o.cls == "ok"
+	client := optStr(o.op, "client", "")
+	creator, hasCreator := m.sh.Get("creator", client)
+	ob := lib.M{"signer": o.signer}
+	switch o.f {
+	case "recoverClient", "updateClientParams", "updateConnParams", "ibcSoftwareUpgrade":
+		if ok && o.known && o.signer != "auth" {
+			m.viol(o, "C46", "authority", "an authority-only operation succeeded for a signer that is not the authority", ob)
+		}
+	case "registerCounterparty":
+		if !ok {
+			break
+		}
+		ob["client"], ob["creator"] = client, creator
+		if !hasCreator || (o.known && creator != o.signer) {
+			m.viol(o, "C46", "register-creator", "counterparty registration succeeded for a signer that is not the client's creator", ob)
+		}
+		if cp, has := m.sh.Get("cp", client); has {
+			ob["cp"] = cp
+			m.viol(o, "C46", "register-twice", "counterparty registration succeeded although a counterparty was already registered", ob)
+		}
+	case "updateClientConfig":
+		ob["client"], ob["creator"] = client, creator
+		if ok && o.known && o.signer != "auth" && !(hasCreator && creator == o.signer) {
+			m.viol(o, "C46", "config-signer", "a client config update succeeded for a signer that is neither the authority nor the creator", ob)
+		}
+	case "deleteClientCreator":
+		if !ok {
+			break
+		}
+		ob["client"], ob["creator"] = client, creator
+		if !hasCreator {
+			m.viol(o, "C46", "delete-no-creator", "creator deletion succeeded for a client without creator", ob)
+		} else if o.known && o.signer != "auth" && creator != o.signer {
+			m.viol(o, "C46", "delete-signer", "creator deletion succeeded for a signer that is neither the authority nor the creator", ob)
+		}
+	}
+
+	// relayer allow list of the client a v2 packet message / client update is addressed to
+	pkt := optObj(o.op, "pkt")
+	id, scoped := "", true
+	switch o.f {
+	case "recvV2":
+		id = optStr(pkt, "dst", "")
+	case "ackV2", "timeoutV2":
+		id = optStr(pkt, "src", "")
+	case "updateClient":
+		id = client
+	default:
+		scoped = false
+	}
+	if scoped && o.known { // ok or noop
+		if cfg, has := m.sh.Get("cfg", id); has && cfg != "" && !contains(strings.Split(cfg, ","), o.signer) {
+			m.viol(o, "C46", "relayer", "a v2 packet message / client update succeeded for a relayer outside the client's non-empty allow list",
+				lib.M{"signer": o.signer, "client": id, "allowed_relayers": cfg})
+		}
+	}
+
+	// allowed client types
+	if ok && (o.f == "createClient" || o.f == "updateClient") {
+		ctype := optStr(o.op, "ctype", "")
+		if o.f == "updateClient" {
+			ctype = client
+			if i := strings.LastIndex(client, "-"); i >= 0 {
+				ctype = client[:i]
+			}
+		}
+		if allowed, has := m.sh.Get("cparams", ""); has && allowed != "*" && !contains(strings.Split(allowed, ","), ctype) {
+			m.viol(o, "C46", "allowed-clients", "a client whose type is not on the allowed-client list was created/updated",
+				lib.M{"client_type": ctype, "allowed_clients": allowed})
+		}
+	}
+}
+
+// ------------------------------------------------------------------------------------------------
+// helpers
+// ------------------------------------------------------------------------------------------------
+
+// find returns the delta entry (set or deleted) of a kind and key.
+func find(d []DeltaEntry, kind, key string) *DeltaEntry {
+	for i := range d {
+		if d[i].Kind == kind && d[i].Key == key {
+			return &d[i]
+		}
+	}
+	return nil
+}
+
+// findSet returns the delta entry of a kind and key if it SETS a value.
+func findSet(d []DeltaEntry, kind, key string) *DeltaEntry {
+	if e := find(d, kind, key); e != nil && e.Val != nil {
+		return e
+	}
+	return nil
+}
+
+func entryDesc(e DeltaEntry) []any {
+	if e.Val == nil {
+		return []any{e.Kind, e.Key, nil}
+	}
+	return []any{e.Kind, e.Key, *e.Val}
+}
+
+func valDesc(e *DeltaEntry) any {
+	if e == nil || e.Val == nil {
+		return nil
+	}
+	return *e.Val
+}
+
+func contains(xs []string, x string) bool {
+	for _, y := range xs {
+		if y == x {
+			return true
+		}
+	}
+	return false
+}
+
+func sameStrings(a, b []string) bool {
+	if len(a) != len(b) {
+		return false
+	}
+	for i := range a {
+		if a[i] != b[i] {
+			return false
+		}
+	}
+	return true
+}
+
+// Tolerant op getters: ops are either built by the generators ([]string, []map[string]any, lib.M,
+// ints) or decoded from JSON ([]any, map[string]any, float64); numbers are decimal strings or ints.
+// None of them panics: a malformed adversarial op simply yields defaults.
+
+func optStr(m map[string]any, k, def string) string {
+	if s, ok := m[k].(string); ok {
+		return s
+	}
+	return def
+}
+
+// optObj returns the object field k, or an empty (readable) map.
+func optObj(m map[string]any, k string) map[string]any {
+	if v, ok := m[k].(map[string]any); ok {
+		return v
+	}
+	return map[string]any{}
+}
+
+func toNum(v any) (uint64, bool) {
+	switch x := v.(type) {
+	case string:
+		n, err := strconv.ParseUint(x, 10, 64)
+		return n, err == nil
+	case float64:
+		if x < 0 {
+			return 0, false
+		}
+		return uint64(x), true
+	case int:
+		if x < 0 {
+			return 0, false
+		}
+		return uint64(x), true
+	case int64:
+		if x < 0 {
+			return 0, false
+		}
+		return uint64(x), true
+	case uint64:
+		return x, true
+	}
+	return 0, false
+}
+
+func optNum(m map[string]any, k string, def uint64) uint64 {
+	if n, ok := toNum(m[k]); ok {
+		return n
+	}
+	return def
+}
+
+// numStr renders a numeric field the way canonical keys do (plain decimal).
+func numStr(m map[string]any, k string) string {
+	if n, ok := toNum(m[k]); ok {
+		return lib.U(n)
+	}
+	return optStr(m, k, "")
+}
+
+// cloneVal deep-copies the JSON-like value of an op so that a recorded history cannot be changed
+// by a generator that reuses or mutates its maps.
+func cloneVal(v any) any {
+	switch x := v.(type) {
+	case map[string]any:
+		c := make(lib.M, len(x))
+		for k, y := range x {
+			c[k] = cloneVal(y)
+		}
+		return c
+	case []any:
+		c := make([]any, len(x))
+		for i, y := range x {
+			c[i] = cloneVal(y)
+		}
+		return c
+	case []map[string]any:
+		c := make([]any, len(x))
+		for i, y := range x {
+			if y == nil {
+				c[i] = nil
+			} else {
+				c[i] = cloneVal(y)
+			}
+		}
+		return c
+	case []string:
+		return append([]string(nil), x...)
+	}
+	return v
+}
